@@ -271,7 +271,20 @@ def main():
         for r in run_parallel(tasks, workers):
             agg.merge(r)
 
+    def smallscope(max_len):
+        from checks import sweep
+        total = sweep.smallscope_size(max_len)
+        tasks = [("smallscope", prop, ch, {"max_len": max_len}) for ch in chunked(range(total), 400)]
+        for r in run_parallel(tasks, workers):
+            agg.merge(r)
+        agg.c["smallscope_histories"] += total
+        notes["smallscope"] = ("every operation sequence of length <= %d over %d operations on 3 keys x %d size limits x "
+                               "%d clock policies x 2 download modes: %d runs" % (max_len, len(sweep.SMALL_OPS),
+                                                                                 len(sweep.SMALL_LIMITS), len(sweep.SMALL_CLOCKS), total))
+
     try:
+        if prop == "C18":
+            smallscope(3)
         if tier == "quick":
             swarm(0, n_quick)
             sweeps(0, n_sweep, {"crash_limit": 120, "fault_limit": 100})
